@@ -10,7 +10,7 @@ exactly when the original does, print the same output when run, and no occurrenc
 binding (the specification's tokens) may keep the old spelling."""
 from ..common import *
 
-LEVEL = "model_checked"
+LEVEL = "model_checking"
 NEW = "zz9"
 
 
